@@ -159,7 +159,8 @@ def run_case(case):
 
 # ------------------------------------------------------------------------------------------------
 GM_FORMS = ['default', 'class', 'name', 'instance', 'fitted-instance', 'instance-positional', 'wrapper-positional',
-            'dict-all', 'dict-subset', 'dict-mixed', 'boom-class', 'boom-name', 'boom-instance', 'boom-dict']
+            'dict-all', 'dict-subset', 'dict-mixed', 'boom-class', 'boom-name', 'boom-instance', 'boom-dict',
+            'dict-reused-after-fallback']
 
 
 def _table(t):
@@ -185,6 +186,37 @@ def _gm(r, case):
     df = _table(t)
     cols = list(df.columns)
     c0, c1, c2 = cols
+    if form == 'dict-reused-after-fallback':
+        # history: the configured distribution of one column fails on a first table (fallback), then the SAME configuration
+        # object is used for a second model on data it can fit: that column must be modelled as configured
+        from mc.boom import Flaky
+        conf = {c1: Flaky, c2: U.UniformUnivariate}
+        neg = df.copy()
+        neg[c1] = neg[c1] - neg[c1].max() - 1.0          # all negative: Flaky refuses
+        pos = df.copy()
+        pos[c1] = pos[c1] - pos[c1].min() + 1.0          # all positive: Flaky fits
+        tag = f'GaussianMultivariate(distribution=dict with a conditionally failing entry) on table {t}'
+        for how in ('same-model-refit', 'new-model-same-dict'):
+            gm1 = GaussianMultivariate(distribution=conf)
+            r.tr(2)
+            r.ev()
+            try:
+                gm1.fit(neg.copy())
+                t1 = type(gm1.univariates[cols.index(c1)]).__name__
+                gm2 = gm1 if how == 'same-model-refit' else GaussianMultivariate(distribution=conf)
+                gm2.fit(pos.copy())
+                t2 = type(gm2.univariates[cols.index(c1)]).__name__
+            except Exception as e:
+                r.violation(f'C05:gm:fit-raises:{form}', f'{tag}: {how} raised {type(e).__name__}: {e}', case=case)
+                break
+            if t1 != 'GaussianUnivariate' or t2 != 'Flaky':
+                r.violation(f'C05:gm:column-type:{form}', f'{tag} ({how}): column {c1!r} is modelled by {t1} on the table the '
+                            f'configured distribution cannot fit (expected the Gaussian fallback) and by {t2} on the table it '
+                            f'can fit (expected the configured distribution)', case=case)
+                break
+        r.hit(f'gm:{form}')
+        r['sample'] = {'form': form, 'table': t}
+        return r
     fitted_proto = U.GaussianKDE(bw_method=0.5)
     fitted_proto.fit(np.linspace(0, 1, 9))
     dist = {
